@@ -253,6 +253,15 @@ def cases(rng, ctx):
     for _ in range(150 * scale):
         col = ''.join(rng.choice(string.ascii_letters) for _ in range(rng.choice([1, 2, 3])))
         out.append({'kind': 'formula', 's': rng.choice(['', '$']) + col + rng.choice(['', '$']) + str(rng.randrange(1, 5000))})
+    # a formula that is one label with white space around it (a formula read as a line of a file keeps its newline), or in
+    # redundant parentheses: the label is decomposed all the same
+    for _ in range(200 * scale):
+        col = ''.join(rng.choice(string.ascii_letters) for _ in range(rng.choice([1, 2, 3])))
+        lab = rng.choice(['', '$']) + col + rng.choice(['', '$']) + str(rng.randrange(1, 5000))
+        out.append({'kind': 'formula', 's': lab, 'wrap': rng.choice(['%s\n', '%s\n', '%s\r\n', ' %s', '%s ', '\n%s', '%s\n\n', '\t%s\t', '(%s)', '( %s )'])})
+    for w in ['%s\n', '%s\r\n', '(%s)']:
+        out.append({'kind': 'formula', 's': 'A1', 'wrap': w})
+        out.append({'kind': 'formula', 's': '$b$2', 'wrap': w})
     # the same address several times in one formula (and, over the run, in one process) with different $ patterns and cases:
     # every reference is decomposed on its own
     for _ in range(250 * scale):
@@ -347,7 +356,7 @@ def impl(c):
     if k == 'formula':
         p = _parser()
         del _EVENTS[:]
-        p.parse(c['s'])
+        p.parse(c.get('wrap', '%s') % c['s'])
         return 'events %s' % ' '.join(enc_str(e) for e in _EVENTS)
     if k == 'label':
         if c.get('pre'):
@@ -403,6 +412,12 @@ def oracle(c, impl_ans):
     if k == 'formula':
         ev = [common.dec_str(t) for t in impl_ans.split(' ')[1:] if t]
         f = c['s']
+        if c.get('wrap'):
+            want = '%s|%s|%d|%d' % (f.upper(), f.upper(), '$' in f.lstrip('$'), f.startswith('$'))
+            if ev != [want]:
+                return ('the formula %r is the cell label %r with white space or parentheses around it; the cell events (label | recomposed '
+                        'parts | row $ | column $) are %r, expected %r' % (c['wrap'] % f, f, ev, [want]))
+            return None
         if all(ord(ch) < 128 for ch in f):
             inner = f[4:-1] if f[:4].upper() == 'SUM(' and f.endswith(')') else f
             if inner.count(':') == 1 and all(label_shaped(x) for x in inner.split(':')):
